@@ -167,6 +167,7 @@ class C01(Prop):
             self.urig.send(self.uport, _rb.encode(gen.broadcast_desc(r, model, r.randrange(10 ** 6), f"{r.randrange(1, 0xEFFFFF):06x}")))
         self.urig.send(self.uport, r.randbytes(r.randrange(0, 200)))
         with clock.virtual_time(now) as traveller:
+            conns_before = len(self.dev.conns)
             cl = await self.rig.connect(self.dev, t, dev_id, key)
             try:
                 pool = ops.T1_OPS if t == 1 else (["control_breeze"] * 4 + ops.T2_OPS)
@@ -220,6 +221,17 @@ class C01(Prop):
                 if not ok or bytes(cl.conn.raw) != written:
                     acc.violation("conservation", "bytes received by the device differ from the bytes written",
                                   {"written": len(written), "received": len(cl.conn.raw)})
+                for other in self.dev.conns[conns_before:]:
+                    if other is cl.conn:
+                        continue
+                    # a client that quietly opened another connection: what it wrote there is judged like everything else
+                    acc.count("connections_opened_by_the_client_on_its_own")
+                    for w in other.frames:
+                        acc.ev()
+                        for problem in frames.generic_check(w):
+                            what = "length" if "length field" in problem else ("signature" if "signature" in problem else "framing")
+                            acc.violation(f"{what}:{frames.classify(w)}:on-a-second-connection", f"frame written on a connection the client opened on its own: {problem}",
+                                          {"frame": w.hex()[:200]})
                 acc.count("frames_received_by_device", len(cl.conn.frames))
                 acc.count("frames_written", len(cl.spy.writes))
                 if len(cl.conn.frames) != len(cl.spy.writes):
